@@ -178,13 +178,15 @@ MPSucc(K, Q, st, o) ==
          ELSE IF o.ctx = "live" /\ st.fault = "none" THEN {full(TRUE)}
          \* a fault in the final collection / in the exporter: every reader and exporter is shut down all the same
          ELSE IF o.ctx = "live" THEN ErrAlts(some, {"", "fault"})
-         ELSE ErrAlts({full(TRUE), full(FALSE), [s0 EXCEPT !.down = TRUE]} \cup (IF st.fault = "none" THEN {} ELSE some),
-                      {"", "ctx"} \cup FaultErr(st))
+         \* a ctx that is already done: each reader on its own may or may not get its final collection exported
+         ELSE ErrAlts({full(TRUE), full(FALSE), [s0 EXCEPT !.down = TRUE]} \cup some, {"", "ctx"} \cup FaultErr(st))
     [] o.op = "ForceFlush" ->
          IF st.down THEN ErrAlts({s0}, {"", "reader-shutdown"} \cup (IF o.ctx = "live" THEN {} ELSE {"ctx"}))
          ELSE IF o.ctx = "live" /\ st.fault = "none" THEN {MExportAll(K, s0, Q)}
          ELSE IF o.ctx = "live" THEN ErrAlts(MExportAny(K, s0, Q), {"", "fault"})
-         ELSE ErrAlts(IF st.fault = "none" THEN {s0, MExportAll(K, s0, Q)} ELSE MExportAny(K, s0, Q), {"", "ctx"} \cup FaultErr(st))
+         \* a ctx that is already done: every periodic reader's ForceFlush races its own run loop (Go select between the
+         \* flush hand-over and ctx.Done), so ANY subset of the readers exports -- independently of each other
+         ELSE ErrAlts(MExportAny(K, s0, Q), {"", "ctx"} \cup FaultErr(st))
     [] o.op = "Meter" -> {[s0 EXCEPT !.out.noop = st.down]}
     [] o.op = "Add" ->
          \* via "old": instrument created before Shutdown; "new": meter + instrument obtained now
